@@ -142,6 +142,14 @@ def main():
             c["text"] = c["text"] + " BlockSymbol.Name is the block type followed by every label, Go-quoted with %q / strconv.Quote (no other transformation of the label text)."
         if pid in E15_PROPS | {"C17","C04"}:
             c["text"] = c["text"] + " A slice made with a non-zero length is filled by index or copy and is not appended to while its made elements are never stored into (E15.append-after-sized-make)."
+        if pid in {"C01","C17"}:
+            c["text"] = c["text"] + " No == / != between two interface values whose interface has a non-comparable implementer in the module (E4.P6)."
+        if pid in {"C09","C10","C12","C13","C14"}:
+            c["text"] = c["text"] + " The E6 position-literal rules (Column and Byte of one base shifted by the same constant, no component assigned alone, one file per range) hold for the constructs in this feature's files and functions."
+        if pid == "C20":
+            c["text"] = c["text"] + " FunctionSignature.Copy copies every field on every path (E5, signatures reach SignatureAtPos through it); the scans recoverLeftBytes / recoverRightBytes leave their loop only where the caller's predicate matched (E1.skip-row)."
+        if pid in {"C07","C16"}:
+            c["text"] = c["text"] + " Schema keys are decoded with the tolerant json.Unmarshal; no json.Decoder is configured with DisallowUnknownFields (E11.key-reader)."
         if pid in {"C06","C07","C08","C11","C12","C20","C02"}:
             c["text"] = c["text"] + " No function assigns its hcl.Pos parameter, a component of it, or takes its address (E8.cursor-unchanged)."
         if pid in E15_PROPS:
